@@ -340,6 +340,17 @@ def c04_noApproval (t : Tr) : Bool :=
      | _, _ => !isConvert t.op)
   | _ => true
 
+/-- a successful conversion of an external token saw `transfer` return `true` (a contract that returns
+`false`, nothing, or garbage must make the conversion fail) -/
+def c04_transferTrue (t : Tr) : Bool :=
+  match t.op with
+  | .k op =>
+    if !(t.ok && t.resp == .converted) then true else
+    (match msgPair t.pre.st op, t.answers with
+     | some p, [_, _, call, _] => p.owner != .external || (call.status == .ok && call.ret == some 1)
+     | _, _ => !isConvert t.op)
+  | _ => true
+
 /-- converting back restores exactly the original holdings on both ledgers (honest token) -/
 def c04_roundtrip (t : Tr) : Bool :=
   match t.prev, t.op with
@@ -371,7 +382,8 @@ def monitors : List (String × String × (Tr → Bool)) :=
    ("C14", "ordinary_transfers", c14_ordinaryTransfers), ("C14", "rejected_unchanged", rejectedUnchanged),
    ("C04", "rejected_unchanged", rejectedUnchanged), ("C04", "success_exact_bank", c04_successExactBank),
    ("C04", "success_exact_reported", c04_successExactReported), ("C04", "success_exact_token", c04_successExactToken),
-   ("C04", "no_approval", c04_noApproval), ("C04", "roundtrip", c04_roundtrip)]
+   ("C04", "no_approval", c04_noApproval), ("C04", "transfer_true", c04_transferTrue),
+   ("C04", "roundtrip", c04_roundtrip)]
 
 end Spec
 end Erc20
